@@ -460,7 +460,15 @@ class DslMixin:
                 node = a
                 if isinstance(node, ast.Constant) and isinstance(node.value, str):
                     node = ast.parse(node.value, mode="eval").body
-                return self.w.resolve_ann(node, mod)
+                best = self.w.resolve_ann(node, mod)
+                if _mentions_any(best):
+                    # the name may live in another module of the repository than the spec's MODULE
+                    for m2 in list(self.specs.default_module.values()) + list(self.w.repo.modules):
+                        if m2 and m2 != mod:
+                            r = self.w.resolve_ann(node, m2)
+                            if not _mentions_any(r):
+                                return r
+                return best
 
             ptys = [ann_ty(a.annotation) for a in fn.node.args.args]
             rty = ann_ty(fn.node.returns) if fn.node.returns is not None else T.BOOL
